@@ -620,7 +620,49 @@ func (g *gen) str() string {
 	return s
 }
 
+// Round 3 (seed C10-4): integers around powers of two and the int64 limits, and n-ary arithmetic over them
+// (products / sums of the arguments wrap around int64: 4294967296*4294967296 = 0, 65536^4 = 0, ...).
+var bigNums = []string{"65535", "65536", "65537", "2147483647", "2147483648", "2147483649", "4294967295", "4294967296", "4294967297",
+	"4611686018427387903", "4611686018427387904", "4611686018427387905", "9223372036854775806", "9223372036854775807",
+	"-9223372036854775808", "-9223372036854775807", "-65536", "-2147483648", "-4294967296", "-4611686018427387904"}
+
+// outside int64: only for the wild generator and the mutation dictionary
+var bigNumsWild = []string{"9223372036854775808", "-9223372036854775809", "18446744073709551616", "18446744073709551615"}
+
+func (g *gen) arithNum() string {
+	if g.p(75) {
+		return g.r0(bigNums)
+	}
+	return g.r0([]string{"0", "1", "2", "3", "7", "-1", "42"})
+}
+
+// naryArith: fn:div / fn:mult / fn:plus / fn:minus with 2-4 arguments; arg yields the non-literal arguments
+// (a bound variable, or a literal again).
+func (g *gen) naryArith(arg func() string) string {
+	f := g.r0([]string{"fn:div", "fn:div", "fn:div", "fn:mult", "fn:plus", "fn:minus"})
+	n := 2 + g.r.Intn(3)
+	xs := []string{arg()}
+	same := g.arithNum()
+	for i := 1; i < n; i++ {
+		switch {
+		case g.p(45):
+			xs = append(xs, same) // the same divisor several times: 65536 four times, 4294967296 twice
+		case g.p(80):
+			xs = append(xs, g.arithNum())
+		default:
+			xs = append(xs, arg())
+		}
+	}
+	return f + "(" + strings.Join(xs, ", ") + ")"
+}
+
 func (g *gen) number() string {
+	if g.p(20) {
+		if !g.clean && g.p(15) {
+			return g.r0(bigNumsWild)
+		}
+		return g.r0(bigNums)
+	}
 	if g.clean {
 		return g.r0([]string{"0", "1", "2", "3", "7", "-1", "42", "9223372036854775807", "-9223372036854775808", "1000000"})
 	}
@@ -687,6 +729,14 @@ var reducers = []string{"fn:count()", "fn:sum(%s)", "fn:max(%s)", "fn:min(%s)", 
 	"fn:float:max(%s)", "fn:pick_any(%s)", "fn:count_distinct()", "fn:collect_to_map(%s, %s)", "fn:time:max(%s)", "fn:duration:sum(%s)", "fn:plus(%s, 1)"}
 
 func (g *gen) term(depth int) string {
+	if g.p(9) {
+		return g.naryArith(func() string {
+			if g.p(35) {
+				return g.variable()
+			}
+			return g.arithNum()
+		})
+	}
 	k := g.r.Intn(10)
 	switch {
 	case k < 3:
@@ -1032,6 +1082,16 @@ var dict = []string{"Decl", "Package", "Use", "bound", "descr", "inclusion", "te
 	", /any", "/any, ", ", /number", "/string, ", "\"p0\"", ", \"p1\"", " inclusion [", " inclusion [p0(X)]", ".Map<", ".Pair<", ".Union<", ".Singleton<", ".Option<", ".Struct<>",
 	".Union<>", ".List</any>", ", .List</number>", "fn:List(", "fn:Fun(", "opt ", " temporal"}
 
+func init() {
+	dict = append(dict, bigNums...)
+	dict = append(dict, bigNumsWild...)
+	dict = append(dict, "fn:div", "fn:mult", "fn:minus", "fn:div(7, 4294967296, 4294967296)", "fn:div(7, 65536, 65536, 65536, 65536)",
+		"fn:mult(4294967296, 4294967296)", "fn:plus(9223372036854775807, 1)", "fn:minus(-9223372036854775808, 1)", ", 4294967296")
+	scLines = append(scLines, bigNums...)
+	scLines = append(scLines, "fn:div(7, 4294967296, 4294967296)", "fn:div(7, 65536, 65536, 65536, 65536)", "fn:mult(4294967296, 4294967296)",
+		"fn:div(-9223372036854775808, -1)", "fn:plus(9223372036854775807, 1)", "fn:minus(-9223372036854775808, 1, 1)")
+}
+
 func tokenize(s string) []string {
 	var toks []string
 	cur := strings.Builder{}
@@ -1171,7 +1231,13 @@ func (g *gen) cleanFact() string {
 	p := g.pickPred()
 	var xs []string
 	for _, c := range p.cols {
-		xs = append(xs, g.colConst(c))
+		if (c == 0 || c == 3) && g.p(12) {
+			xs = append(xs, g.naryArith(g.arithNum)) // evaluated when the initial facts are checked
+		} else if c == 0 && g.p(10) {
+			xs = append(xs, g.r0(bigNums))
+		} else {
+			xs = append(xs, g.colConst(c))
+		}
 	}
 	s := p.name + "(" + strings.Join(xs, ", ") + ")"
 	if p.temporal {
@@ -1312,6 +1378,14 @@ func (g *gen) cleanRule() string {
 			for strings.Contains(f, "%s") {
 				f = strings.Replace(f, "%s", pickBound(), 1)
 			}
+			if g.p(30) {
+				f = g.naryArith(func() string {
+					if g.p(60) {
+						return pickBound()
+					}
+					return g.arithNum()
+				})
+			}
 			v := g.variable()
 			body = append(body, v+" = "+f)
 			bound = append(bound, v)
@@ -1353,6 +1427,14 @@ func (g *gen) cleanRule() string {
 		}
 	} else if g.p(8) && len(bound) > 0 {
 		tr = " |> let Lt = fn:pair(" + pickBound() + ", 1)"
+		hv = append(append([]string{}, bound...), "Lt")
+	} else if g.p(12) && len(bound) > 0 {
+		tr = " |> let Lt = " + g.naryArith(func() string {
+			if g.p(60) {
+				return pickBound()
+			}
+			return g.arithNum()
+		})
 		hv = append(append([]string{}, bound...), "Lt")
 	}
 	var hs []string
